@@ -144,17 +144,42 @@ Definition op_filter (p : bytes -> bool) (v : bytes) : bytes := filter_loop p (s
 Definition op_in (v : bytes) (matchString : bytes) : bytes :=
   truthy_str (existsb (bytes_eqb v) (split0 matchString)).
 
-(* kfArrayRange; i += incr is modelled without int wrap-around (assumption: |stop + incr| < 2^63) *)
-Fixpoint range_loop (fuel : nat) (i stop incr : Z) (sb : bytes) : bytes :=
+(* kfArrayRange.  Go's [i += incr] is int64 addition: [int_add] wraps.  At most [cap] = maxRangeElements
+   elements are built; the round that would add one more returns ErrorValue.  The builder is a
+   reversed list of chunks, numbers are rendered at the end (itoa never yields "", so "sb.Len() > 0"
+   is "a chunk was written").  [fuel] only makes the recursion structural: [None] = fuel exhausted,
+   impossible for [range_fuel] (Proofs/ArrayFnsLoops.v: range_loop_guarded, range_fuel_enough). *)
+Definition int_add (a b : Z) : Z := let z := (a + b)%Z in if in_int64 z then z else wrap64 z.
+Inductive rchunk := RSep | RNum (z : Z).
+Definition render_chunk (c : rchunk) : bytes := match c with RSep => [NUL] | RNum z => itoa z end.
+Definition render (chunks : list rchunk) : bytes := concat (map render_chunk (rev_append chunks [])).
+Definition in_range (i stop incr : Z) : bool := ((incr >? 0) && (i <? stop) || (incr <? 0) && (i >? stop))%Z.
+
+Fixpoint range_loop (fuel : nat) (cap : Z) (i stop incr count : Z) (chunks : list rchunk) : option bytes :=
   match fuel with
-  | O => sb
+  | O => None
   | S f =>
-      if ((incr >? 0) && (i <? stop) || (incr <? 0) && (i >? stop))%Z then
-        range_loop f (i + incr)%Z stop incr
-          (sb ++ sepb (match sb with [] => false | _ => true end) ++ itoa i)
-      else sb
+      if in_range i stop incr then
+        let count' := (count + 1)%Z in
+        if (count' >? cap)%Z then Some ErrorValue
+        else range_loop f cap (int_add i incr) stop incr count'
+               (RNum i :: match chunks with [] => chunks | _ => RSep :: chunks end)
+      else Some (render chunks)
   end.
-Definition op_range (sStart sStop sIncr : bytes) : bytes :=
+
+(* no int64 overflow can happen while the loop runs: the value computed after the last element that is
+   in range is at most stop - 1 + incr (at least stop + 1 + incr for a negative increment) *)
+Definition range_no_wrap (start stop incr : Z) : bool :=
+  in_int64 start && in_int64 stop &&
+  (if (incr >? 0)%Z then (stop + incr - 1 <=? max_int64)%Z else (min_int64 <=? stop + incr + 1)%Z).
+
+Definition range_fuel (cap start stop incr : Z) : nat :=
+  S (Z.to_nat (if range_no_wrap start stop incr then Z.min cap (Z.abs (stop - start)) else cap)).
+
+Definition range_run (cap start stop incr : Z) : option bytes :=
+  range_loop (range_fuel cap start stop incr) cap start stop incr 0%Z [].
+
+Definition op_range_cap (cap : Z) (sStart sStop sIncr : bytes) : bytes :=
   match atoi sStart with
   | None => ErrorNum
   | Some start =>
@@ -167,10 +192,14 @@ Definition op_range (sStart sStop sIncr : bytes) : bytes :=
               if (incr =? 0)%Z then ErrorValue
               else if ((incr >? 0) && (start >? stop))%Z then ErrorValue
               else if ((incr <? 0) && (start <? stop))%Z then ErrorValue
-              else range_loop (Z.to_nat (Z.abs (stop - start))) start stop incr []
+              else match range_run cap start stop incr with
+                   | Some r => r
+                   | None => [] (* never: range_fuel_enough *)
+                   end
           end
       end
   end.
+Definition op_range := op_range_cap MaxRangeElements.
 
 (* strconv.Itoa(idx) for the loop counter idx = 0, 1, 2, ...: the decimal digits are kept least
    significant first and incremented with carry ([dec_str] of the n-th successor of "0" is the
@@ -184,21 +213,26 @@ Definition dec_zero : list N := [48%N].
 Definition dec_str (ds : list N) : bytes := rev ds.
 
 (* kfArrayFor: cond and incr see {0} = current value, {1} = index.  The builder is kept as a
-   reversed list of chunks (rev_append: List.rev is quadratic).  [fuel] = MAX_ITERATIONS + 1 rounds: round idx runs for idx <= MAX.
-   [first] is idx = 0 (repaired separator rule: "if idx > 0"). *)
-Fixpoint for_loop (fuel : nat) (cond incr : bytes -> bytes -> bytes) (val : bytes) (idx : list N)
-                  (first : bool) (chunks : list bytes) : bytes :=
+   reversed list of chunks (rev_append: List.rev is quadratic) together with its length [len] in bytes.
+   [fuel] = MAX_ITERATIONS + 1 rounds: round idx runs for idx <= MAX.  After a round (element written,
+   increment evaluated) the loop gives up with the marker when idx > MAX_ITERATIONS (fuel exhausted)
+   or the builder is longer than [maxb] = MAX_OUTPUT_BYTES.  [first] is idx = 0 (separator rule "if idx > 0"). *)
+Fixpoint for_loop (fuel : nat) (maxb : Z) (cond incr : bytes -> bytes -> bytes) (val : bytes) (idx : list N)
+                  (len : Z) (first : bool) (chunks : list bytes) : bytes :=
   match fuel with
   | O => ForInfMarker
   | S f =>
       let sIdx := dec_str idx in
       if truthy (cond val sIdx) then
-        for_loop f cond incr (incr val sIdx) (dec_succ idx) false
-                 (val :: (if first then chunks else [NUL] :: chunks))
+        let len' := (len + (if first then 0 else 1) + Z.of_nat (length val))%Z in
+        let val' := incr val sIdx in
+        if (len' >? maxb)%Z then ForInfMarker
+        else for_loop f maxb cond incr val' (dec_succ idx) len' false
+                      (val :: (if first then chunks else [NUL] :: chunks))
       else concat (rev_append chunks [])
   end.
-Definition op_for (cap : nat) (cond incr : bytes -> bytes -> bytes) (start : bytes) : bytes :=
-  for_loop (S cap) cond incr start dec_zero true [].
+Definition op_for (cap : nat) (maxb : Z) (cond incr : bytes -> bytes -> bytes) (start : bytes) : bytes :=
+  for_loop (S cap) maxb cond incr start dec_zero 0%Z true [].
 
 (* kfJoin(ArraySeparator): {@ a b ...} and {$ a b ...} *)
 Definition op_arr (vals : list bytes) : bytes :=
@@ -264,7 +298,7 @@ Fixpoint eval (e : expr) (c : ctx) {struct e} : bytes :=
   | AReduce a f init => op_reduce (fun m x => eval f (subctx c m x)) init (eval a c)
   | AIn a set => op_in (eval a c) (op_arr set)
   | ARange s e i => op_range (eval s c) (eval e c) (eval i c)
-  | AFor s x i => op_for iter_cap (fun v k => eval x (subctx c v k)) (fun v k => eval i (subctx c v k)) (eval s c)
+  | AFor s x i => op_for iter_cap ForMaxOutputBytes (fun v k => eval x (subctx c v k)) (fun v k => eval i (subctx c v k)) (eval s c)
   end.
 
 (* ------------------------------------------------------------------ the property: list semantics *)
@@ -297,29 +331,40 @@ Definition spec_in (v : bytes) (set : list bytes) : bytes :=
 (* start, start+incr, ... strictly before stop; [n] elements *)
 Fixpoint progression (n : nat) (start incr : Z) : list Z :=
   match n with O => [] | S k => start :: progression k (start + incr)%Z incr end.
-Definition range_count (start stop incr : Z) : nat :=
-  if (incr >? 0)%Z then Z.to_nat ((stop - start + incr - 1) / incr)
-  else Z.to_nat ((start - stop + (- incr) - 1) / (- incr)).
-Definition spec_range (sStart sStop sIncr : bytes) : bytes :=
+Definition range_countZ (start stop incr : Z) : Z :=
+  if (incr >? 0)%Z then ((stop - start + incr - 1) / incr)%Z
+  else ((start - stop + (- incr) - 1) / (- incr))%Z.
+Definition range_count (start stop incr : Z) : nat := Z.to_nat (range_countZ start stop incr).
+(* where no int64 overflow can occur: ErrorValue above the cap, else the progression; otherwise
+   (huge bounds with a huge increment) whatever the wrapping loop of the code yields *)
+Definition spec_range_cap (cap : Z) (sStart sStop sIncr : bytes) : bytes :=
   match atoi sStart, atoi sStop, atoi sIncr with
   | Some start, Some stop, Some incr =>
       if (incr =? 0)%Z || ((incr >? 0) && (start >? stop))%Z || ((incr <? 0) && (start <? stop))%Z
       then ErrorValue
-      else join0 (map itoa (progression (range_count start stop incr) start incr))
+      else if range_no_wrap start stop incr then
+        if (range_countZ start stop incr >? cap)%Z then ErrorValue
+        else join0 (map itoa (progression (range_count start stop incr) start incr))
+      else match range_run cap start stop incr with Some r => r | None => [] end
   | _, _, _ => ErrorNum
   end.
+Definition spec_range := spec_range_cap MaxRangeElements.
 
 (* the values @for visits: v, incr v 0, incr (incr v 0) 1, ... while cond is truthy;
-   None when the cond is still truthy after [fuel] rounds *)
-Fixpoint for_list (fuel : nat) (cond incr : bytes -> bytes -> bytes) (val : bytes) (idx : list N) : option (list bytes) :=
+   None when the cond is still truthy after [fuel] rounds or the joined values are longer than [maxb] *)
+Fixpoint for_list (fuel : nat) (maxb : Z) (cond incr : bytes -> bytes -> bytes) (val : bytes) (idx : list N)
+                  (len : Z) (first : bool) : option (list bytes) :=
   match fuel with
   | O => None
   | S f => if truthy (cond val (dec_str idx))
-           then option_map (cons val) (for_list f cond incr (incr val (dec_str idx)) (dec_succ idx))
+           then let len' := (len + (if first then 0 else 1) + Z.of_nat (length val))%Z in
+                let val' := incr val (dec_str idx) in
+                if (len' >? maxb)%Z then None
+                else option_map (cons val) (for_list f maxb cond incr val' (dec_succ idx) len' false)
            else Some []
   end.
-Definition spec_for (cap : nat) (cond incr : bytes -> bytes -> bytes) (start : bytes) : bytes :=
-  match for_list (S cap) cond incr start dec_zero with
+Definition spec_for (cap : nat) (maxb : Z) (cond incr : bytes -> bytes -> bytes) (start : bytes) : bytes :=
+  match for_list (S cap) maxb cond incr start dec_zero 0%Z true with
   | Some l => join0 l
   | None => ForInfMarker
   end.
@@ -347,7 +392,7 @@ Fixpoint spec (e : expr) (c : ctx) {struct e} : bytes :=
   | AReduce a f init => spec_reduce (fun m x => spec f (subctx c m x)) init (spec a c)
   | AIn a set => spec_in (spec a c) set
   | ARange s e i => spec_range (spec s c) (spec e c) (spec i c)
-  | AFor s x i => spec_for iter_cap (fun v k => spec x (subctx c v k)) (fun v k => spec i (subctx c v k)) (spec s c)
+  | AFor s x i => spec_for iter_cap ForMaxOutputBytes (fun v k => spec x (subctx c v k)) (fun v k => spec i (subctx c v k)) (spec s c)
   end.
 
 (* observable: the string BuildKey returns; None = the implementation panicked, did not finish,
